@@ -3,7 +3,8 @@
    E <bom> <table> <text>         -> bytes|unenc|resolved        (table: cp=b.b.b or cp=- joined by ","; bytes NONE when the encoder raises)
    K <bom> <table> <text>         -> tokens of (escape_unenc text) in full-sheet mode: ty:val;ty:val...   (strings as cps joined by ".")
    D <bytes>                      -> detect_charset              (cps | NONE)
-   S <enc|-> <rule>;<rule>...     -> get_encoding|sheet_text  after set_encoding enc (if given); rule = C.cps or O.cps *)
+   S <enc|-> <rule>;<rule>...     -> get_encoding|sheet_text  after set_encoding enc (if given); rule = C.cps or O.cps
+   A <rule>;... <op>;<op>...      -> get_encoding|sheet_text  after run_history; op = +cps (accepted name), -cps (refused name), 0 (None) *)
 open Escapeenc_model
 
 let rec pos_of_int n = if n = 1 then XH else if n land 1 = 0 then XO (pos_of_int (n lsr 1)) else XI (pos_of_int (n lsr 1))
@@ -50,6 +51,14 @@ let () =
           | ["S"; e; rs] ->
             let sh = if rs = "-" then [] else List.map rule (String.split_on_char ';' rs) in
             let sh = if e = "-" then sh else set_encoding (parse ',' e) sh in
+            out "," (get_encoding sh) ^ "|" ^ out "," (sheet_text sh)
+          | ["A"; rs; ops] ->
+            let sh = if rs = "-" then [] else List.map rule (String.split_on_char ';' rs) in
+            let ops = if ops = "-" then [] else List.map (fun o ->
+                if o = "0" then (None, false)
+                else (Some (parse '.' (String.sub o 1 (String.length o - 1))), o.[0] = '+')) (String.split_on_char ';' ops) in
+            let usable e = List.exists (fun (n, u) -> u && n = Some e) ops in
+            let sh = run_history usable sh (List.map fst ops) in
             out "," (get_encoding sh) ^ "|" ^ out "," (sheet_text sh)
           | _ -> "BAD"
         with Failure m -> "FAIL " ^ m
